@@ -382,14 +382,14 @@ void sha256_update(sha256_ctx *ctx, const unsigned char *message,
            rem_len);
 
     ctx->len = rem_len;
-    ctx->tot_len += (block_nb + 1) << 6;
+    ctx->tot_len += (uint64) (block_nb + 1) << 6;
 }
 
 void sha256_final(sha256_ctx *ctx, unsigned char *digest)
 {
     unsigned int block_nb;
     unsigned int pm_len;
-    unsigned int len_b;
+    uint64 len_b;
 
 #ifndef UNROLL_LOOPS
     int i;
@@ -403,7 +403,7 @@ void sha256_final(sha256_ctx *ctx, unsigned char *digest)
 
     memset(ctx->block + ctx->len, 0, pm_len - ctx->len);
     ctx->block[ctx->len] = 0x80;
-    UNPACK32(len_b, ctx->block + pm_len - 4);
+    UNPACK64(len_b, ctx->block + pm_len - 8);
 
     sha256_transf(ctx, ctx->block, block_nb);
 
@@ -579,14 +579,14 @@ void sha512_update(sha512_ctx *ctx, const unsigned char *message,
            rem_len);
 
     ctx->len = rem_len;
-    ctx->tot_len += (block_nb + 1) << 7;
+    ctx->tot_len += (uint64) (block_nb + 1) << 7;
 }
 
 void sha512_final(sha512_ctx *ctx, unsigned char *digest)
 {
     unsigned int block_nb;
     unsigned int pm_len;
-    unsigned int len_b;
+    uint64 len_b;
 
 #ifndef UNROLL_LOOPS
     int i;
@@ -600,7 +600,7 @@ void sha512_final(sha512_ctx *ctx, unsigned char *digest)
 
     memset(ctx->block + ctx->len, 0, pm_len - ctx->len);
     ctx->block[ctx->len] = 0x80;
-    UNPACK32(len_b, ctx->block + pm_len - 4);
+    UNPACK64(len_b, ctx->block + pm_len - 8);
 
     sha512_transf(ctx, ctx->block, block_nb);
 
@@ -681,14 +681,14 @@ void sha384_update(sha384_ctx *ctx, const unsigned char *message,
            rem_len);
 
     ctx->len = rem_len;
-    ctx->tot_len += (block_nb + 1) << 7;
+    ctx->tot_len += (uint64) (block_nb + 1) << 7;
 }
 
 void sha384_final(sha384_ctx *ctx, unsigned char *digest)
 {
     unsigned int block_nb;
     unsigned int pm_len;
-    unsigned int len_b;
+    uint64 len_b;
 
 #ifndef UNROLL_LOOPS
     int i;
@@ -702,7 +702,7 @@ void sha384_final(sha384_ctx *ctx, unsigned char *digest)
 
     memset(ctx->block + ctx->len, 0, pm_len - ctx->len);
     ctx->block[ctx->len] = 0x80;
-    UNPACK32(len_b, ctx->block + pm_len - 4);
+    UNPACK64(len_b, ctx->block + pm_len - 8);
 
     sha512_transf(ctx, ctx->block, block_nb);
 
@@ -781,14 +781,14 @@ void sha224_update(sha224_ctx *ctx, const unsigned char *message,
            rem_len);
 
     ctx->len = rem_len;
-    ctx->tot_len += (block_nb + 1) << 6;
+    ctx->tot_len += (uint64) (block_nb + 1) << 6;
 }
 
 void sha224_final(sha224_ctx *ctx, unsigned char *digest)
 {
     unsigned int block_nb;
     unsigned int pm_len;
-    unsigned int len_b;
+    uint64 len_b;
 
 #ifndef UNROLL_LOOPS
     int i;
@@ -802,7 +802,7 @@ void sha224_final(sha224_ctx *ctx, unsigned char *digest)
 
     memset(ctx->block + ctx->len, 0, pm_len - ctx->len);
     ctx->block[ctx->len] = 0x80;
-    UNPACK32(len_b, ctx->block + pm_len - 4);
+    UNPACK64(len_b, ctx->block + pm_len - 8);
 
     sha256_transf(ctx, ctx->block, block_nb);
 
